@@ -611,7 +611,7 @@ func runC08(c *fw.Ctx) {
 	}
 	// sibling tables whose ids extend another table's id by a suffix the disk storage might use for its own scratch
 	// names (table ids may contain dots): clearing, deleting or re-creating one table must not touch the other
-	for _, suffix := range []string{".deleted", ".new", ".table.proto.tmp", ".tmp", ".table.proto"} {
+	for _, suffix := range []string{".deleted", ".new", ".table.proto.tmp", ".tmp", ".table.proto", ".v2", "-2"} {
 		for vi, variant := range [][]bt.Op{
 			{{Kind: "DropRowRange", Table: tblT, All: true}},
 			{{Kind: "DeleteTable", Table: tblT}, alpha[0]},
